@@ -64,6 +64,9 @@ pub fn check_table(ctx: &mut Ctx, t: &Value, steps: &mut u64) -> Option<Value> {
         }
         for l in t["loads"].as_array().unwrap() {
             let (k, ts, want) = (l[0].as_i64().unwrap(), l[1].as_i64().unwrap(), l[2].as_i64().unwrap());
+            if k == 0 && std::env::var("VH_KEYSET").as_deref() == Ok("empty1") {
+                continue; // with this key set the empty key is key 1 itself, not "a key before every key"
+            }
             *steps += 1;
             let got = match loader(&key_bytes(k), ts as u64) {
                 Ok(g) => g,
